@@ -210,3 +210,41 @@ def gcc_problem(draw, max_rows=10, with_utilities=True, max_hot=3, max_cold=3, m
     case = {"streams": draw(st.permutations(ss))}
     case["utilities"] = draw(utilities(T, max_hot, max_cold, max_both, isothermal_utils, thirds=False)) if with_utilities else []
     return case
+
+
+# analysis flags that add outputs (extra curves, unit-operation targets, exergy figures) but must leave every target,
+# utility duty and table of the plain analysis untouched.  DO_INDIRECT_PROCESS_TARGETING and DO_AREA_TARGETING are not
+# here: they raise on classes of valid inputs (known findings C14-F1, C14-F2) and would hide what lies behind them.
+BENIGN_FLAGS = ["DO_DIRECT_OPERATION_TARGETING", "DO_VERTICAL_GCC", "DO_ASSITED_HT", "DO_EXERGY_TARGETING", "DO_BALANCED_CC"]
+
+
+@st.composite
+def with_options(draw, base, one_in=3):
+    """``base`` with 1-3 of the benign analysis flags switched on in one case out of ``one_in`` (cases that already carry options are left alone)."""
+    case = draw(base)
+    if "options" not in case and draw(st.integers(0, one_in - 1)) == 0:
+        flags = draw(st.lists(st.sampled_from(BENIGN_FLAGS), min_size=1, max_size=3, unique=True))
+        case = dict(case)
+        case["options"] = {f: (draw(st.booleans()) if f == "DO_BALANCED_CC" else True) for f in flags}
+    return case
+
+
+@st.composite
+def community_problem(draw, max_per_zone=3, thirds=False):
+    """An explicit zone tree whose root is a Community or a Region (both are documented zone types): the root itself is
+    never targeted, the sites below it are.  Root(Community) -> 1-2 sites -> 1-2 process zones, or
+    Root(Region) -> Community -> sites.  Stream labels are paths below the root."""
+    pal = draw(palette(thirds=thirds))
+    region = draw(st.booleans())
+    sites = []
+    ss = []
+    prefix = "Town/" if region else ""
+    for sname, plants in (("North", ["NA", "NB"]), ("South", ["SA", "SB"]))[: draw(st.integers(1, 2))]:
+        kids = plants[: draw(st.integers(1, 2))]
+        for k in kids:
+            for _ in range(draw(st.integers(1, max_per_zone))):
+                ss.append(draw(stream(pal, [f"{prefix}{sname}/{k}"], iso_share=0.05, thirds=thirds)))
+        sites.append({"name": sname, "type": "Site", "children": [{"name": k, "type": "Process Zone", "children": None} for k in kids]})
+    community = {"name": "Town" if region else "Site", "type": "Community", "children": sites}
+    tree = {"name": "Site", "type": "Region", "children": [community]} if region else community
+    return {"streams": ss, "utilities": draw(utilities(pal, 2, 2, 1, thirds=thirds)), "zone_tree": tree, "shape": "region-root" if region else "community-root"}
